@@ -3,7 +3,7 @@
    This file contains only statements, each closed by [exact]; the model is Model/GattClient.v
    (the code after fixes D12a, D12b, D12c, D12d). *)
 From Coq Require Import ZArith List Bool.
-From BV Require Import Model.GattClient Proofs.GattClient.
+From BV Require Import Model.GattClient Model.GattClientShape Gen.C12Shape Proofs.GattClient.
 Import ListNotations.
 Open Scope Z_scope.
 
@@ -119,7 +119,7 @@ Proof. exact build_wf. Qed.
 Print Assumptions C12_add_service_wf.
 
 (* ---------------------------------------------------------------- values *)
-Theorem C12_long_read_exact : forall value mtu, 2 <= mtu ->
+Theorem C12_long_read_exact : forall value mtu, 2 <= mtu -> Z.of_nat (length value) <= 0xFFFF ->
   read_from_server (S (length value)) mtu value = RDone value.
 Proof. exact long_read_exact. Qed.
 Print Assumptions C12_long_read_exact.
@@ -157,6 +157,133 @@ Theorem C12_write_cccd_subscribes : forall s b h b0 b1 bit,
 Proof. exact write_cccd_subscribes. Qed.
 Print Assumptions C12_write_cccd_subscribes.
 
+(* ---------------------------------------------------------------- extension round *)
+(* read_characteristics_by_uuid pages like the discovery procedures: same bound, every peer *)
+Theorem C12_read_characteristics_by_uuid_terminates : forall r sh se, 0 <= sh -> se <= 0xFFFF ->
+  finishes (read_characteristics_by_uuid (fuel_for sh) r sh se) 65536.
+Proof. exact read_characteristics_by_uuid_terminates. Qed.
+Print Assumptions C12_read_characteristics_by_uuid_terminates.
+
+(* the long read loop ends for EVERY peer (any first response, any function from offset to Read
+   Blob response): the offset grows by at least ATT_MTU-1 per request and an offset above 0xFFFF
+   cannot be put into a request, which raises *)
+Theorem C12_read_value_terminates : forall first blob mtu no_long_read, 2 <= mtu ->
+  read_value (Z.to_nat 0x10000) first blob mtu no_long_read <> ROutOfFuel.
+Proof. exact read_value_terminates. Qed.
+Print Assumptions C12_read_value_terminates.
+
+(* discovery filtered by characteristic UUIDs = filter of the unfiltered discovery: same handle
+   ranges (the end group handles are computed before filtering), same requests *)
+Theorem C12_filtered_discovery_is_filter : forall fuel r sh se us,
+  discover_characteristics_uuids fuel r sh se us
+  = match discover_characteristics fuel r sh se with
+    | (Done es, n) => (Done (filter_uuids us es), n)
+    | other => other
+    end.
+Proof. exact discover_characteristics_uuids_spec. Qed.
+Print Assumptions C12_filtered_discovery_is_filter.
+
+(* discover_characteristics(uuids, None) over any list of services, any peer *)
+Theorem C12_discover_characteristics_all_terminates : forall r svcs us n acc,
+  Forall (fun p => snd p <= 0xFFFF) svcs ->
+  fst (discover_characteristics_all r svcs us n acc) <> OutOfFuel /\
+  Z.of_nat (snd (discover_characteristics_all r svcs us n acc)) <= Z.of_nat n + all_bound svcs.
+Proof. exact discover_characteristics_all_terminates. Qed.
+Print Assumptions C12_discover_characteristics_all_terminates.
+
+(* notify_subscriber / indicate_subscriber on a Connection: exactly the subscribed bearers among
+   its EATT channels and itself *)
+Theorem C12_subscriber_fan_out_routing : forall indicate mtu_of s eatt conn h v,
+  subscriber_fan_out indicate mtu_of s eatt conn h v
+  = map (fun b => (b, kind_op indicate, h, truncate (mtu_of b) v))
+        (filter (fun b => subscribed (kind_bit indicate) s b h) (eatt ++ [conn])).
+Proof. exact subscriber_fan_out_routing. Qed.
+Print Assumptions C12_subscriber_fan_out_routing.
+
+(* end to end, no well-formedness hypothesis left: whatever add_services was given *)
+Theorem C12_client_sees_database : forall ss mtu, 23 <= mtu -> specs_ok ss = true -> total_size ss <= 0xFFFE ->
+  let db := build ss in
+  fst (client_discover_services mtu db) = Done (map to_entry (primary_services db)) /\
+  fst (client_discover_attributes mtu db) = Done (map info_entry db) /\
+  (forall u, fst (client_discover_service mtu db u) = Done (map to_entry (services_with db u))) /\
+  (forall s, In s (primary_services db) ->
+     fst (client_discover_included mtu db (a_handle s) (a_end s))
+       = Done (map to_entry (includes_of db (a_handle s) (a_end s))) /\
+     fst (client_discover_characteristics mtu db (a_handle s) (a_end s))
+       = Done (map to_entry (chardecls_of db s)) /\
+     (forall us, fst (discover_characteristics_uuids (fuel_for (a_handle s))
+                        (fun _ st => srv_read_by_type mtu db UUID_CHARACTERISTIC st (a_end s))
+                        (a_handle s) (a_end s) us)
+                 = Done (filter_uuids us (map to_entry (chardecls_of db s)))) /\
+     True) /\
+  (forall vh ce, 0 <= vh -> ce <= 0xFFFF ->
+     fst (client_discover_descriptors mtu db vh ce) = Done (map info_entry (attrs_in db (vh + 1) ce))).
+Proof. exact client_sees_database. Qed.
+Print Assumptions C12_client_sees_database.
+
+(* ---------------------------------------------------------------- the model matches the source (regenerated on every run)
+   Gen/C12Shape.v is written by tools/translate/c12_shape.py from the current bumble sources:
+   the control-flow skeleton of the 31 anchored functions and 63 constants of their arithmetic.
+   They must equal the tables the model was written from ... *)
+Theorem C12_skeletons_match_source : skeletons_eqb src_skeletons model_skeletons = true.
+Proof. vm_compute. reflexivity. Qed.
+Print Assumptions C12_skeletons_match_source.
+
+Theorem C12_consts_match_source : consts_eqb src_consts model_consts = true.
+Proof. vm_compute. reflexivity. Qed.
+Print Assumptions C12_consts_match_source.
+
+(* ... and the model functions are stated in exactly those constants (k_x_y is the constant "x.y") *)
+Theorem C12_shape_find_information : forall mtu db s e,
+  srv_find_information mtu db s e
+  = if orb (s =? 0) (e <? s) then RErr k_err_invalid_handle else
+    reply (map info_entry (take_run k_fi_entry_hdr false (fun a => u_len (a_type a))
+                                    (mtu - k_fi_space) None (filter (in_range s e) db))).
+Proof. exact shape_find_information. Qed.
+Print Assumptions C12_shape_find_information.
+
+Theorem C12_shape_read_by_type : forall mtu db t s e,
+  srv_read_by_type mtu db t s e
+  = if orb (s =? 0) (e <? s) then RErr k_err_invalid_handle else
+    let lim := Z.min (mtu - k_rbt_limit_off) k_rbt_limit_max in
+    reply (map (to_entry_trunc lim)
+             (take_run k_rbt_entry_hdr true (fun a => Z.min (disc_vlen a) lim) (mtu - k_rbt_space) None
+                (filter (fun a => andb (uuid_eqb (a_type a) t) (in_range s e a)) db))).
+Proof. exact shape_read_by_type. Qed.
+Print Assumptions C12_shape_read_by_type.
+
+Theorem C12_shape_read_by_group : forall mtu db t s e,
+  srv_read_by_group mtu db t s e
+  = let lim := Z.min (mtu - k_rbgt_limit_off) k_rbgt_limit_max in
+    reply (map (to_entry_trunc lim)
+             (take_run k_rbgt_entry_hdr true (fun a => Z.min (disc_vlen a) lim) (mtu - k_rbgt_space) None
+                (filter (fun a => andb (uuid_eqb (a_type a) t) (in_range s e a)) db))).
+Proof. exact shape_read_by_group. Qed.
+Print Assumptions C12_shape_read_by_group.
+
+Theorem C12_shape_read_blob : forall mtu v off,
+  srv_read_blob mtu v off
+  = let len := Z.of_nat (length v) in
+    if len <? off then VErr k_err_invalid_offset
+    else if len <=? mtu - k_blob_not_long then VErr k_err_not_long
+    else VVal (sublist off (Z.min (mtu - k_blob_part) (len - off)) v).
+Proof. exact shape_read_blob. Qed.
+Print Assumptions C12_shape_read_blob.
+
+Theorem C12_shape_send_single : forall indicate force mtu_of s b h v,
+  send_single indicate force mtu_of s b h v
+  = if orb force (subscribed (if indicate then k_indicate_bit else k_notify_bit) s b h)
+    then [(b, (if indicate then k_op_indication else k_op_notification), h, truncate (mtu_of b) v)]
+    else [].
+Proof. exact shape_send_single. Qed.
+Print Assumptions C12_shape_send_single.
+
+Theorem C12_shape_truncate : forall mtu v,
+  truncate mtu v = if mtu - k_notify_trunc_if <? Z.of_nat (length v)
+                   then firstn (Z.to_nat (mtu - k_notify_trunc)) v else v.
+Proof. exact shape_truncate. Qed.
+Print Assumptions C12_shape_truncate.
+
 (* ---------------------------------------------------------------- non-vacuity *)
 Definition ex_specs : list svc_spec :=
   [ mkSS (U16 0x1800) true []
@@ -178,6 +305,15 @@ Example ex_characteristics :
 Proof. vm_compute. reflexivity. Qed.
 
 Example ex_long_read : read_from_server 30 23 (repeat 7 44) = RDone (repeat 7 44).
+Proof. vm_compute. reflexivity. Qed.
+
+Example ex_read_adversary :     (* a peer that always answers 22 bytes: the read ends by exception *)
+  read_value (Z.to_nat 0x10000) (VVal (repeat 0 22)) (fun _ => VVal (repeat 0 22)) 23 false = RRaised (-4).
+Proof. vm_compute. reflexivity. Qed.
+
+Example ex_filter :
+  filter_uuids [U16 0x2A00] [mkE 2 3 false [2; 3; 2; 0x2A00]; mkE 4 7 false [50; 5; 16; 99]]
+  = [mkE 2 3 false [2; 3; 2; 0x2A00]].
 Proof. vm_compute. reflexivity. Qed.
 
 Example ex_routing :
